@@ -190,6 +190,7 @@ def recover(dest, cfg, nmol):
     """What a user does after a crash: resume from the checkpoint if there is one, else rerun."""
     ck = os.path.join(dest, "md.restart.pt")
     info = {"had_checkpoint": os.path.exists(ck)}
+    info["rng_log"] = install_rng_logger()
     if info["had_checkpoint"]:
         import torch
 
@@ -348,6 +349,44 @@ def install_crash(point, nth, when, kind):
     else:
         raise ValueError(point)
     return state
+
+
+DRAWING_ENGINES = ("langevin", "xl_damped", "ksa_damped", "sh")
+
+
+def install_rng_logger():
+    """Class-level observer: records (absolute step index, hash of torch's CPU RNG state) at the start of every
+    integrator step.  Used as an oracle on the state the property depends on for engines that draw random numbers
+    in every step: a resumed step must start from the RNG state the uninterrupted run had at that step."""
+    import hashlib
+
+    import torch
+    from seqm import MolecularDynamics as MDm
+
+    log = []
+    classes = [MDm.Molecular_Dynamics_Basic, MDm.XL_BOMD]
+    try:
+        from seqm import NonadiabaticDynamics as NA
+
+        for c in vars(NA).values():
+            if isinstance(c, type) and "_do_integrator_step" in vars(c):
+                classes.append(c)
+    except Exception:  # noqa: BLE001
+        pass
+    for c in classes:
+        if "_do_integrator_step" in vars(c) and not getattr(vars(c)["_do_integrator_step"], "_vp_rnglog", False):
+            orig = vars(c)["_do_integrator_step"]
+
+            def mk(orig):
+                def w(self, i, *a, **kw):
+                    log.append((int(i), hashlib.sha1(torch.random.get_rng_state().numpy().tobytes()).hexdigest()[:12]))
+                    return orig(self, i, *a, **kw)
+
+                w._vp_rnglog = True
+                return w
+
+            setattr(c, "_do_integrator_step", mk(orig))
+    return log
 
 
 def crash_child(cfg, workdir, crash, resume):
